@@ -138,6 +138,9 @@ func (c *Ctx) ruleWalkRoot(pkgs ...string) {
 				if l.Kind == "rangeloop" || l.Kind == "rangefunc" || nilCheck(l) || l.Via != "" {
 					continue
 				}
+				if c.benignClass(&siteInfo{}, l) != "" {
+					continue
+				}
 				if x, t, _ := typeAssertOK(l); x != nil && strings.HasPrefix(typeStr(t), "annotations.") || (x != nil && typeStr(t) == "*config.Config") {
 					continue
 				}
@@ -221,6 +224,14 @@ func (c *Ctx) classifyStore(w *walkInfo, fn *ssa.Function, st *ssa.Store) (strin
 	}
 	if fv, ok := base.(*ssa.FreeVar); ok {
 		cell := P.cellOf(fv)
+		if cell != nil {
+			// a cell that belongs to a function invoked during the visit of one node is local to that visit
+			for _, f := range w.Closure {
+				if cell.Parent() == f {
+					return "local", ""
+				}
+			}
+		}
 		// accumulator idiom: *cell = append(*cell, ...)
 		if base == addr && isAppendOfCell(P, st.Val, cell) {
 			return "accumulator", ""
